@@ -1555,3 +1555,82 @@ func loopConditionIsConstantTime(c *core.Ctx, rule string) {
 	}
 	c.Check(n >= 3, rule, "conditional loops in the BMP decoders", 0, fmt.Sprintf("only %d found", n))
 }
+
+// holdTimerPollRecurs: the states with a hold timer look at it from a select case that must come round again for as long
+// as the state lasts (HoldTimer_Expires can only be noticed by that poll).  The case's channel is either made anew on every
+// iteration (`time.After`), or a ticker, or a one-shot timer that the case body re-arms (`Reset`) before the loop goes on.
+// A one-shot timer that fires once and is re-armed only when a message arrives never looks at the hold timer of a silent
+// peer again: the session stays Established for ever with a dead neighbour.
+func holdTimerPollRecurs(c *core.Ctx, rule string) {
+	n := 0
+	for _, f := range c.P.FuncsIn(srv) {
+		if f.Decl.Body == nil || f.Decl.Recv == nil || f.Decl.Name.Name != "run" {
+			continue
+		}
+		ast.Inspect(f.Decl.Body, func(nd ast.Node) bool {
+			cc, ok := nd.(*ast.CommClause)
+			if !ok || cc.Comm == nil {
+				return true
+			}
+			polls := false
+			for _, st := range cc.Body {
+				if core.NodeHas(st, func(x ast.Node) bool {
+					cl, isCall := x.(*ast.CallExpr)
+					if !isCall {
+						return false
+					}
+					g := core.Callee(f.Pkg, cl)
+					return g != nil && g.Name() == "checkHoldtimer"
+				}) {
+					polls = true
+				}
+			}
+			if !polls {
+				return true
+			}
+			n++
+			c.Analysed(f)
+			var ch ast.Expr
+			ast.Inspect(cc.Comm, func(x ast.Node) bool {
+				if ue, isU := x.(*ast.UnaryExpr); isU && ue.Op.String() == "<-" {
+					ch = core.Unparen(ue.X)
+				}
+				return true
+			})
+			ok2, why := false, "the poll's channel is neither time.After(…), a ticker's C nor a timer's C re-armed in the case"
+			switch x := ch.(type) {
+			case *ast.CallExpr:
+				if core.FuncKey(core.Callee(f.Pkg, x)) == "time.After" {
+					ok2 = true
+				}
+			case *ast.SelectorExpr:
+				t := f.Pkg.TypesInfo.TypeOf(x.X)
+				ts := ""
+				if t != nil {
+					ts = t.String()
+				}
+				switch {
+				case x.Sel.Name == "C" && strings.HasSuffix(ts, "time.Ticker"):
+					ok2 = true
+				case x.Sel.Name == "C" && strings.HasSuffix(ts, "time.Timer"):
+					for _, st := range cc.Body {
+						if core.NodeHas(st, func(y ast.Node) bool {
+							cl, isCall := y.(*ast.CallExpr)
+							if !isCall {
+								return false
+							}
+							se, isSel := cl.Fun.(*ast.SelectorExpr)
+							return isSel && se.Sel.Name == "Reset" && core.SameExpr(f.Pkg, se.X, x.X)
+						}) {
+							ok2 = true
+						}
+					}
+					why = "the poll waits on a one-shot timer that the case does not re-arm: after it has fired once the hold timer is never looked at again unless something else re-arms it"
+				}
+			}
+			c.Check(ok2, rule, f.Name()+" the hold timer poll comes round on every iteration", cc.Pos(), why+": a silent peer's session is never torn down (HoldTimer_Expires is lost)")
+			return true
+		})
+	}
+	c.Check(n >= 3, rule, "hold timer polls in the state loops", 0, fmt.Sprintf("only %d found", n))
+}
